@@ -988,8 +988,10 @@ func TestVerifC10(t *testing.T) {
 	nCase := 1500
 	nRep, nRepRot := 600, 150
 	nCross, nCrossRot := 3000, 150
+	nCaseCross := 40
 	if thorough {
 		nCross, nCrossRot = 60000, 3000
+		nCaseCross = 1200
 		nFrag, nRotSmall, nRotBig, nLin, nCase = 300000, 40000, 4000, 150000, 20000
 		nRep, nRepRot = 12000, 3000
 	}
@@ -1295,7 +1297,7 @@ func TestVerifC10(t *testing.T) {
 
 	// ---- letter case ----
 	{
-		v := newVerifRun("C10", c10ClauseCaseFold, fmt.Sprintf("sampled, %d draws from the domain of the fragments clause (circular and linear, 1..6 sites), each stored in lower case, in random mixed case and with a tenth of the letters lowered; the fragments (compared without regard to case) must equal those of the upper-case part; non-trivial = at least one fragment expected", nCase))
+		v := newVerifRun("C10", c10ClauseCaseFold, fmt.Sprintf("sampled, %d draws from the domain of the fragments clause (circular and linear, 1..6 sites), each stored in lower case, in random mixed case and with a tenth of the letters lowered; the fragments (compared without regard to case) must equal those of the upper-case part; PLUS %d sampled circular 'crossing-cuts' plasmids of 40..300 bases as in the rotation clause (2..6 sites, at least one forward site followed by a backward site after a gap of 0..2*skip-1 bases so that their cuts cross; same restrictions) at EVERY rotation of the stored sequence, each rotation stored in lower case and in random mixed case (all / half / a tenth of the letters lowered) and compared with the upper-case spelling of the same rotation, classes case-changes-crossing-cuts / case-changes-crossing-cuts-panic; non-trivial = at least one fragment expected (crossing plasmids: the upper-case spelling of that rotation yields at least one fragment)", nCase, nCaseCross))
 		v.Sampled()
 		var col c10Collector
 		for i := 0; i < nCase; i++ {
@@ -1321,6 +1323,38 @@ func TestVerifC10(t *testing.T) {
 				}
 				if !c10StrsEqual(got, up) {
 					col.add(c10ClauseCaseFold, "lower-case", c10Input(e, variant, circular), "against the upper-case part: "+c10Diff(got, up), n)
+				}
+			}
+		}
+		// crossing-cuts plasmids, every rotation, lower and mixed case
+		rngXC := rand.New(rand.NewSource(verifSeed() ^ 0x80c10))
+		for i := 0; i < nCaseCross; i++ {
+			e := c10PickEnzyme(rngXC, i)
+			n := 40 + rngXC.Intn(261)
+			if i%3 == 0 {
+				n = 40 + rngXC.Intn(81)
+			}
+			c, ok := c10MakeCrossing(rngXC, e, n, 2+rngXC.Intn(5), true, false)
+			if !ok {
+				continue
+			}
+			for r := 0; r < n; r++ {
+				s := c10Rotate(c.seq, r)
+				up, perrUp := c10Real(s, true, e)
+				for vi, variant := range []string{strings.ToLower(s), c10RandomCase(rngXC, s)} {
+					v.Case(fmt.Sprintf("crossing #%d %s rot=%d variant=%d", i, c.key(), r, vi), len(up) > 0 && variant != s)
+					got, perr := c10Real(variant, true, e)
+					for j := range got {
+						got[j] = strings.ToUpper(got[j])
+					}
+					sort.Strings(got)
+					if perr != perrUp {
+						col.add(c10ClauseCaseFold, "case-changes-crossing-cuts-panic", c10Input(e, variant, true), fmt.Sprintf("rotation by %d of plasmid with sites [%s]; upper case: %q, this case: %q", r, c.layout(), perrUp, perr), n)
+						continue
+					}
+					if !c10StrsEqual(got, up) {
+						col.add(c10ClauseCaseFold, "case-changes-crossing-cuts", c10Input(e, variant, true), fmt.Sprintf("rotation by %d of plasmid with sites [%s]; against the upper-case spelling of the same rotation: %s", r, c.layout(), c10Diff(got, up)), n)
+					}
 				}
 			}
 		}
